@@ -409,7 +409,7 @@ func TestVerifC07Codec(t *testing.T) {
 
 func c07giantBudget() int {
 	if vu.Thorough() {
-		return 40
+		return 16
 	}
 	return 0
 }
